@@ -168,6 +168,12 @@ def _catf(ts):
 
 # ---- generator --------------------------------------------------------------------------------------
 
+# productions of the first grammar version: the committed replay files of C29/C34 were recorded with exactly these
+# optional productions drawing from the tape; later productions are enabled by `grammar=2` (separate enumerated cases)
+V1_FEATURES = frozenset(["output_merge", "subworkflow", "scatter_any_method", "when", "multi_source", "default_for_null", "valueFrom"])
+V2_FEATURES = V1_FEATURES | frozenset(["tool_default", "valueFrom_other_input", "optional_array_input"])
+
+
 class Gen:
     def __init__(self, t, scratch, features=None, max_steps=6):
         self.t = t
@@ -208,6 +214,9 @@ class Gen:
 
     def input_type(self):
         t = self.t
+        if self.features is not None and "optional_array_input" in self.features:
+            k = t.draw(11, "input.type")
+            return (INT, arr(INT), STR, arr(STR), BOOL, opt(INT), FILE, arr(FILE), arr(arr(INT)), arr(opt(INT)), arr(opt(INT)))[k]
         k = t.draw(9, "input.type")
         return (INT, arr(INT), STR, arr(STR), BOOL, opt(INT), FILE, arr(FILE), arr(arr(INT)))[k]
 
@@ -301,10 +310,20 @@ class Gen:
         ins, eff, scattered, refs = wired
         self.used.add("tool." + fam)
         tool, out_t = make(eff)
+        names = ["a", "b"][:nin]
+        # a default declared by the TOOL for an optional input (applies whenever the delivered value is null)
+        for n, ety in zip(names, eff):
+            if ety[0] == "opt" and base(ety) in (INT, STR) and isinstance(tool["inputs"][n], dict) and self.on("tool_default", 2):
+                tool["inputs"][n]["default"] = self.literal(base(ety), "tool.default")
+                self.used.add("tool_input.default")
+        # a later input's valueFrom reading an EARLIER input of the same step (it must see the value before valueFrom)
+        if nin == 2 and "source" in ins["a"] and "source" in ins["b"] and eff[0] == eff[1] and eff[0] in (INT, STR) and not scattered[0] and self.on("valueFrom_other_input", 3):
+            ins["b"]["valueFrom"] = "$(self + inputs.a)" if eff[0] == INT else '$(self + "+" + inputs.a)'
+            ins["a"].setdefault("valueFrom", "$(self + 1)" if eff[0] == INT else '$(self + "!")')
+            self.used.add("valueFrom.reads_other_input")
         if depth == 0 and self.on("subworkflow", 5):
             tool, out_t = self.subworkflow(tool, eff, out_t)
         step = {"in": ins, "out": ["o"], "run": tool}
-        names = ["a", "b"][:nin]
         sc = [n for n, s in zip(names, scattered) if s]
         nest = 0
         if sc:
@@ -453,8 +472,8 @@ class Gen:
         return inner, last_t
 
 
-def generate(t, scratch, features=None, max_steps=6):
-    g = Gen(t, scratch, features, max_steps)
+def generate(t, scratch, features=None, max_steps=6, grammar=1):
+    g = Gen(t, scratch, features if features is not None else (V1_FEATURES if grammar == 1 else V2_FEATURES), max_steps)
     doc, job, outs = g.workflow()
     wf = os.path.join(scratch, "wf.cwl")
     jf = os.path.join(scratch, "job.json")
